@@ -546,16 +546,57 @@ func rootAlloc(v ssa.Value) ssa.Value {
 			v = x.X
 		case *ssa.Alloc, *ssa.MakeSlice, *ssa.MakeMap:
 			return x
+		case *ssa.Extract:
+			if c, ok := x.Tuple.(*ssa.Call); ok && freshCalls[c] != nil && freshCalls[c][x.Index] {
+				return x
+			}
+			return nil
+		case *ssa.Call:
+			if freshCalls[x] != nil && freshCalls[x][0] {
+				return x
+			}
+			return nil
+		case *ssa.Phi:
+			// a phi of fresh results (or nil) is itself a fresh root
+			for _, e := range x.Edges {
+				if c, isC := e.(*ssa.Const); isC && c.Value == nil {
+					continue
+				}
+				r := rootAlloc(e)
+				if r == nil || r == ssa.Value(x) {
+					return nil
+				}
+				if _, isAlloc := r.(*ssa.Alloc); isAlloc {
+					return nil
+				}
+			}
+			return x
 		default:
 			return nil
 		}
 	}
 }
 
+// freshCalls records, per call instruction, which results the callee's
+// contract promises to be freshly allocated.
+var freshCalls = map[*ssa.Call]map[int]bool{}
+
 func (f *Frame) markEscape(v ssa.Value) {
 	if r := rootAlloc(v); r != nil {
-		f.escaped[r] = true
+		if _, done := f.escaped[r]; !done {
+			f.escaped[r] = f.curInstr
+		}
+		if phi, ok := r.(*ssa.Phi); ok {
+			for _, e := range phi.Edges {
+				f.markEscape(e)
+			}
+		}
 	}
+}
+
+func (f *Frame) hasEscaped(r ssa.Value) bool {
+	_, done := f.escaped[r]
+	return done
 }
 
 // noteWrite is called for every store through an address.
@@ -569,7 +610,7 @@ func (f *Frame) noteWrite(st *State, a *Addr, ins ssa.Instruction) {
 	}
 	fresh := false
 	if target != nil {
-		if r := rootAlloc(target); r != nil && !f.escaped[r] && r.Parent() == f.fn {
+		if r := rootAlloc(target); r != nil && !f.hasEscaped(r) && valueParent(r) == f.fn {
 			fresh = true
 		}
 	}
@@ -588,7 +629,7 @@ func (f *Frame) noteMapWrite(st *State, m *Val, ins ssa.Instruction) {
 	}
 	fresh := false
 	if target != nil {
-		if r := rootAlloc(target); r != nil && !f.escaped[r] && r.Parent() == f.fn {
+		if r := rootAlloc(target); r != nil && !f.hasEscaped(r) && valueParent(r) == f.fn {
 			fresh = true
 		}
 	}
@@ -649,3 +690,10 @@ func (f *Frame) noteMapRead(st *State, m *Val, ins ssa.Instruction) {
 	f.lockMapObl(m, ins, false)
 }
 func (f *Frame) noteGlobalRead(g *ssa.Global, ins ssa.Instruction) {}
+
+func valueParent(v ssa.Value) *ssa.Function {
+	if ins, ok := v.(ssa.Instruction); ok {
+		return ins.Parent()
+	}
+	return v.Parent()
+}
